@@ -732,6 +732,13 @@ void ReferenceSimulator::powerOn()
 	if (m_stateNeedsReevaluating)
 		reevaluate();
 
+	{
+		// What the simulation processes wrote while being started forms a micro tick of its own. Without this, testbench recorders merge
+		// these writes with the first reads (after WaitStable or in the first clock event) into one phase and emit the CHECKs before the SETs.
+		auto perfHandle = m_performanceCounters.processOther(SimulatorPerformanceCounters::Other::EVENT_CALLBACKS);
+		m_callbackDispatcher.onAfterMicroTick(m_microTick);
+	}
+
 	handleCurrentTimeStep();
 
 	{
